@@ -189,6 +189,7 @@ func init() {
 			}
 			c19Oracle(e.text, tags, r)
 		}})
+		c.Scenarios = append(c.Scenarios, Scenario{Name: "statement-boundaries", Count: func(string) int { return c19BoundaryCount() }, Run: func(_ string, idx int, r *Result) { c19BoundaryRun(idx, r) }})
 		for _, f := range semanticFamilies {
 			f := f
 			c.Scenarios = append(c.Scenarios, Scenario{Name: f.Name, Count: f.Count, Run: func(tier string, idx int, r *Result) {
